@@ -442,11 +442,6 @@ fn driver_counts(n: usize, both: bool) {
             let last = &p.current()[want - 1];
             assert!(last.solution().len() == 1 && last.solution()[0] == bits[n - 1], "the unpaired individual is carried over");
         }
-        let mut i = 0;
-        while i < want {
-            assert!(!p.current()[i].is_evaluated(), "offspring are unevaluated");
-            i += 1;
-        }
     }
     std::mem::forget(s);
 }
